@@ -184,11 +184,29 @@ def parseEnvDate (s : Str) : Option DateTime :=
     | _, _ => none
   | _ => none
 
-/-- go-message msg-id on the forms the server writes: `<` id `>` -/
+/-- RFC 5322 atext -/
+def atextB (c : Nat) : Bool :=
+  (65 ≤ c && c ≤ 90) || (97 ≤ c && c ≤ 122) || (48 ≤ c && c ≤ 57) ||
+  [33, 35, 36, 37, 38, 39, 42, 43, 45, 47, 61, 63, 94, 95, 96, 123, 124, 125, 126].contains c
+
+/-- RFC 5322 dtext: printable ASCII except `[`, `]`, `\` -/
+def dtextB (c : Nat) : Bool := (33 ≤ c && c ≤ 90) || (94 ≤ c && c ≤ 126)
+
+/-- go-message mail.headerParser.parseMsgID: `<` dot-atom-text `@` (dot-atom-text | `[` dtext* `]`) `>`
+    (comments and folding white space around it do not occur in what the server writes) -/
 def takeMsgID : Str → Option (Str × Str)
   | 60 :: r =>
-    match spanB (fun c => c ≠ 62 && c ≠ 60 && c ≠ 32) r with
-    | (id, 62 :: r') => if id.isEmpty then none else some (id, r')
+    match spanB (fun c => atextB c || c = 46) r with
+    | ([], _) => none
+    | (left, 64 :: 91 :: r2) =>
+      match spanB dtextB r2 with
+      | (lit, 93 :: 62 :: r') => some (left ++ 64 :: 91 :: (lit ++ [93]), r')
+      | _ => none
+    | (left, 64 :: r2) =>
+      match spanB (fun c => atextB c || c = 46) r2 with
+      | ([], _) => none
+      | (right, 62 :: r') => some (left ++ 64 :: right, r')
+      | _ => none
     | _ => none
   | _ => none
 
